@@ -155,6 +155,43 @@ def alloc_keys(chk):
                   node=call)
     if found == 0:
         raise AnalysisError('_read_halo_info: no typed allocations recognised')
+    # every array that is constructed here and becomes a column carries an explicit dtype: numpy's default (float64)
+    # is not the declared type of any halo column, and a derived column would then be computed in another precision
+    # depending on whether its inputs are temporaries or requested columns
+    CTORS = {'np.empty': 1, 'np.zeros': 1, 'np.ones': 1, 'np.full': 2, 'np.arange': None, 'np.linspace': None}
+
+    def resolve(v):
+        if isinstance(v, ast.Name):
+            ds = [n for n in walk_no_nested(fn) if isinstance(n, ast.Assign) and len(n.targets) == 1 and isinstance(n.targets[0], ast.Name)
+                  and n.targets[0].id == v.id]
+            if len(ds) == 1:
+                return ds[0].value
+        return v
+    sinks = []
+    for n in walk_no_nested(fn):
+        if isinstance(n, ast.Call) and isinstance(n.func, ast.Attribute) and n.func.attr == 'add_column' and n.args:
+            nm = [k.value for k in n.keywords if k.arg == 'name']
+            sinks.append((n, n.args[0], unparse(nm[0]) if nm else '?'))
+        elif isinstance(n, ast.Call) and isinstance(n.func, ast.Attribute) and n.func.attr == 'replace_column' and len(n.args) >= 2:
+            sinks.append((n, n.args[1], unparse(n.args[0])))
+        elif isinstance(n, ast.Assign) and len(n.targets) == 1 and isinstance(n.targets[0], ast.Subscript) \
+                and unparse(n.targets[0].value) in ('cols', 'halos', 'self.halos'):
+            sinks.append((n, n.value, unparse(n.targets[0].slice)))
+    for node, val, dest in sinks:
+        val = resolve(val)
+        if isinstance(val, ast.Call) and dotted(val.func) in CTORS:
+            cn = dotted(val.func)
+            npos = CTORS[cn]
+            typed = any(k.arg == 'dtype' for k in val.keywords) or (npos is not None and len(val.args) > npos)
+            chk.check(typed, 'C02-R3', CAT, CLS + '_read_halo_info', f'{cn}(...) -> column {dest} carries an explicit dtype', unparse(val)[:80],
+                      f'column {dest} is built by {unparse(val)[:80]} without a dtype: it gets numpy\'s default float64 instead of the declared type of the column, '
+                      'so values derived from it differ from those derived from the same column when it was requested', node=val)
+            dts_ = [k.value for k in val.keywords if k.arg == 'dtype'] or ([val.args[npos]] if npos is not None and len(val.args) > npos else [])
+            fixed = dts_ and (dotted(dts_[0]) or '').split('.')[-1] in ('float32', 'float64', 'int32', 'int64', 'uint64', 'uint32', 'int', 'float', 'double', 'single', 'float16', 'int16', 'int8', 'uint8', 'uint16')
+            variable_key = not (dest.startswith(("'", '"')))
+            if typed and variable_key:
+                chk.check(not fixed, 'C02-R3', CAT, CLS + '_read_halo_info', f'{cn}(...) -> column {dest}: dtype depends on the column', unparse(dts_[0])[:60] if dts_ else '',
+                          f'columns named by the variable {dest} are all built with the fixed type {unparse(dts_[0]) if dts_ else "?"}: not the declared type of each column', node=val)
 
 
 # --------------------------------------------------------------------------- R4
